@@ -87,6 +87,7 @@ theorem benign_file_extracted_partial (dest : Path) (fs : FS) (m : Member) (hl :
   dsimp only
   simp only [hn, hr]
   have hself : isPrefix dest dest = true := by simpa using isPrefix_append dest []
-  simp [isPrefix_append, hself, hk, hkr, hc.1, hc.2.1, hc.2.2, rel, hfree]
+  have hdir : isDirAt dest fs dest = true := by simp [isDirAt, hself, rel, lookup]
+  simp [isPrefix_append, hself, hk, hkr, hc.1, hc.2.1, hc.2.2, rel, hfree, hdir]
 
 end Kapture.C18
